@@ -50,10 +50,10 @@ def _build(symx, mods, absence, j):
     import z3
     SM, SSC = mods["simfile.sm"], mods["simfile.ssc"]
     ssc = symx.choose("ssc", 2) == 1
-    vi = symx.choose("vi", len(VERSIONS)) if ssc else 0
+    vi = symx.choose("vi", len(VERSIONS))      # an SM simfile may carry a VERSION key too (e.g. converted from SSC)
     ck = symx.choose("ck", 3)
     sf = SSC.SSCSimfile(string="") if ssc else SM.SMSimfile(string="")
-    if ssc and VERSIONS[vi] is not None:
+    if VERSIONS[vi] is not None:
         sf["VERSION"] = VERSIONS[vi]
     for k in ("BPMS", "STOPS", "DELAYS", "WARPS"):
         sf[k] = SF_VALS[k]
@@ -208,9 +208,9 @@ def replay(data):
     absence, j = data["args"]
     gi = lambda k, d=0: int(Fraction(m.get(k, str(d))))
     gb = lambda k: str(m.get(k, "False")) in ("True", "1")
-    ssc = gi("ssc") == 1; vi = gi("vi") if ssc else 0; ck = gi("ck")
+    ssc = gi("ssc") == 1; vi = gi("vi"); ck = gi("ck")
     sf = SSCSimfile(string="") if ssc else SMSimfile(string="")
-    if ssc and VERSIONS[vi] is not None:
+    if VERSIONS[vi] is not None:
         sf["VERSION"] = VERSIONS[vi]
     for k in ("BPMS", "STOPS", "DELAYS", "WARPS"):
         sf[k] = SF_VALS[k]
